@@ -136,7 +136,7 @@ def layer_rhs1d(ctx, configs=None):
             elif md2['kind'] == 'faces':
                 md2['xf'] = [x * 0.5 + 0.25 for x in md2['xf']]
             msh2 = cfg1d.make_mesh(md2)
-            disc2 = impl.modeldisc.fvm(mod, msh2, cfg1d.make_scheme(cfg['scheme']), numflux=cfg.get('flux'),
+            disc2 = impl.modeldisc.fvm(mod, msh2, getattr(disc, 'num', None) or cfg1d.make_scheme(cfg['scheme']), numflux=cfg.get('flux'),     # the SAME scheme object
                                        bcL=cfg1d.bc_for_impl(cfg['bcL']), bcR=cfg1d.bc_for_impl(cfg['bcR']))
             with np.errstate(all='ignore'):
                 disc2.rhs(impl.field.fdata(mod, msh2, [np.array(d, dtype=float).copy() for d in f.data]))
